@@ -18,7 +18,8 @@ info('C20',
      'verified from the real source against an abstract view plus representation invariant, from an arbitrary state '
      'satisfying the invariant, so the sequential specification holds for every finite history by induction. '
      'B (bounded, not proof): the real CacheFile with every storage class, with and without the worker thread, and the real '
-     'EventHandler on random histories against dict/list models, every call under a deadline. '
+     'EventHandler on random histories against dict/list models, every call under a deadline; a three-level tree of sub-caches with names '
+     'reused across levels, per storage class; the worker with deterministic schedules. '
      'P also: Worker.join_tasks over a ghost worker/queue state: WorkerDied iff the worker was dead on entry or died while waiting; '
      'Queue.join() is only reached in a state where it can return (no hang on a dead worker) (contracts/c_thread.py).',
      ['thread interleavings inside a task and the memory model: this family is silent on concurrency; ThreadedStorage is '
@@ -36,7 +37,8 @@ info('C14',
      'trunc_err.eps == old + performed and evolved_time == old + N_steps*dt for every N_steps; a static frame obligation '
      '(AST scan) shows no other function assigns self.trunc_err/self.evolved_time. TruncationError.__add__/copy/from_norm. '
      'B (bounded, not proof): engines against exact diagonalisation on 6 sites (order of convergence, charge, norm, energy, '
-     'evolved_time for split runs, trunc_err accounting with real truncations).',
+     'evolved_time for split runs, trunc_err accounting with real truncations); imaginary steps of the ExpMPO engines against exp(-tau H); '
+     'the four TimeDependent* drivers on H(t) against the time-ordered exponential (documented first order in dt, model rebuilt at evolved_time).',
      ['exp(-iHt) numerics, order of convergence, norm/energy conservation: bounded only',
       'complex (imaginary-time) dt: dt is modelled as a real number in the deductive part',
       'purification engines (PurificationTEBD / PurificationApplyMPO): accounting inherited from TEBDEngine.run_evolution, own '
@@ -72,7 +74,10 @@ info('C03',
      'and never carry a `sorted` claim over to negated charges (contracts/c_legs.py). '
      'B (bounded, not proof): fingerprints (dense values, leg identity and content incl. flags, labels, qtotal) of every operand '
      'unchanged after every non-in-place operation, including derived operands (same labels in another order for +, -, '
-     'iadd_prefactor_other, binary_blockwise); in-place methods on a deep copy never change the source; '
+     'iadd_prefactor_other, binary_blockwise; qr/lq/svd with random options; combine_legs with supplied pipes), compared with value '
+     'snapshots taken before the operation (a deep copy shares the LegCharge objects and cannot serve as reference); results of '
+     'non-in-place operations are written into and the operands re-read; in-place methods on a deep copy never change the source; '
+     'MPS-level frames; '
      'ChargeInfo.make_valid leaves its argument alone; both configurations.',
      ['frame conditions of the tensor-level operations (np_conserved.Array methods, 5000 lines of numpy code): bounded only; '
       'in-place numpy updates of an opaque attribute leave the verified subset instead of being modelled',
@@ -100,10 +105,12 @@ info('C04',
       'algorithm-level equivalence (DMRG/TEBD in both configurations): not compared'],
      [A_BUILD])
 info('C05',
-     'B (bounded, not proof): run-time contracts of svd (reduced), qr/lq (all modes/options), eigh/eigvalsh/eig, expm, pinv on '
+     'B (bounded, not proof): run-time contracts of svd (reduced), qr/lq (all modes/options), eigh/eigvalsh/eig, expm, pinv, polar (left and right), '
+     'orthogonal_columns, and of tools.math.speigs/speigsh in their dense branch, on '
      'generated rank-2 tensors over all enumerated charge structures incl. rank-deficient, missing and zero blocks, non-blocked '
      'legs, nonzero qtotal, complex entries: reconstruction, isometry/unitarity, S >= 0, positive diagonal, eigenpairs, '
-     'Moore-Penrose identities, sanity and truthful claims of the factors, requested total charges, contractible inner leg, '
+     'Moore-Penrose identities, a = u p / a = p u with p Hermitian positive semi-definite, isometric completion orthogonal to the input, '
+     'the min(k, d) extreme eigenvalues, sanity and truthful claims of the factors, requested total charges, contractible inner leg, '
      'inner_qconj; both configurations.',
      ['LAPACK numerics; the charge/leg bookkeeping of qr/_svd_worker as deductive obligations is not built (bounded only)',
       'svd(full_matrices=True): known finding F-25, excluded from the bounded domain'],
@@ -114,7 +121,10 @@ info('C06',
      'B (bounded; exhaustive for the stated small-leg domain in the thorough tier): every LegPipe over all small legs '
      '(<= 3 blocks, sizes <= 2, charge window, mod 1..3), 1-2 legs exhaustively and 3-4 legs sampled, both outgoing directions, '
      'sort/bunch on/off: index map bijective, fusion rule per index, agreement with combine_legs placement, combine o split = id, '
-     'truthful flags; sort/bunch/project/extend/flip/conj preserve the charge of every surviving index; both configurations.',
+     'truthful flags; sort/bunch/project/extend/flip/conj preserve the charge of every surviving index; several pipes at once; pipes of '
+     'pipes (conjugation flips every level, splitting level by level gives the legs of the conjugate, contraction with the conjugate); '
+     'both configurations. P also: LegCharge/LegPipe copy, conj, flip_charges_qconj, outer_conj incl. LegPipe.conj on a nested pipe '
+     '(contracts/c_legs.py), inverse_permutation.',
      ['LegPipe._init_from_legs / map_incoming_flat as deductive obligations: not built (bounded only)',
       'quick tier strides through the pair domain (every 11th pair); only the thorough tier is exhaustive'],
      [A_BUILD], configs=BOTH)
@@ -151,7 +161,8 @@ info('C09',
      'permute_sites (dense permutation with fermionic signs: old site i moves to perm[i] - the docstring said the inverse, F-45, corrected), '
      'add, group_sites+group_split, enlarge_chi, compress_svd (infidelity <= 2*reported eps), spatial_inversion (reversal, involution) '
      'on random finite MPS of all site families against the dense state; infinite MPS in forms A/B/C: roll/enlarge unit cell and '
-     'spatial inversion leave observables unchanged up to relabelling.',
+     'spatial inversion leave observables unchanged up to relabelling; compress / compress_svd of infinite MPS with non-uniform bond '
+     'dimensions: infidelity per unit cell <= 2 * reported error, reported error >= weight discarded on any single bond.',
      ['swap_sites itself (two-site SVD with fermionic swap gate), compression numerics: bounded only'],
      [])
 info('C10',
@@ -162,7 +173,9 @@ info('C10',
      'B (bounded, not proof): random coupling models (onsite, two-site of any range/sign, 3-site, exponentially decaying; complex '
      'strengths; plus_hc; explicit_plus_hc) on finite open/periodic chains for every site family: dense MPO, term list -> MPO, '
      'bond operators, MPO from bonds, ExactDiag, get_numpy_Hamiltonian (both sources), get_scipy_sparse_Hamiltonian, sorted MPO '
-     'legs and grouped sites all equal the dense operator built from the specification with explicit Jordan-Wigner strings; '
+     'legs and grouped sites all equal the dense operator built from the specification with explicit Jordan-Wigner strings; on infinite '
+     'chains: segments of the MPO (also after enlarging the unit cell) for uniform couplings and for single local terms '
+     '(add_local_term, plus_hc, reaching over the unit cell); '
      'Hermiticity.',
      ['MPOGraph path semantics (protocol-level invariant): bounded only', 'ladders/2D lattices and infinite boundaries: '
       'covered only through C19 (pairs) and C11/C13 models, not in this harness', 'predefined models over their parameter space: '
@@ -189,7 +202,8 @@ info('C19',
      'lattice size and all sublattice pairs: index maps mutually inverse and injective (infinite: on [-2N,3N) and periodic), '
      'mps2lat_values placement, possible_couplings equal to a brute-force enumeration over coordinate pairs, unit-cell assignment of '
      'boundary couplings; neighbour lists against Euclidean distances; irregular, multi-species (positions, pairs), helical lattices; '
-     'mps2lat_values_masked for index sets left of / inside / right of the unit cell and every order.',
+     'mps2lat_values_masked for index sets left of / inside / right of the unit cell and every order; helical lattices: couplings against '
+     'the enumeration along the helix, with and without a strength.',
      ['assumed, not proved: the representation invariant that the `order` setter establishes with np.lexsort (evaluated on real '
       'lattices by the CPython cross-check); np.mod / np.sum / np.take / a[..., k] on 1-D rows; the composition mps2lat_idx(lat2mps_idx(x)) '
       '== x follows by counting and is not a discharged obligation',
@@ -213,7 +227,7 @@ info('C16',
      'B (bounded, not proof): LanczosGroundState over N_cache in {2,3,N_max} x reortho x E_shift on random Hermitian block-sparse '
      'operators (normalised vector, E0 = Rayleigh quotient >= minimum of the sector, exact at full Krylov dimension, independent of '
      'N_cache), orthogonal projection, Shift/Sum operator wrappers, Lanczos/Arnoldi evolution vs expm (norm preserving for '
-     'anti-Hermitian exponents), Arnoldi Ritz pairs ordered by `which`, gram_schmidt, GMRES residual.',
+     'anti-Hermitian exponents; the normalize option and its documented defaults), Arnoldi Ritz pairs ordered by `which`, gram_schmidt, GMRES residual.',
      ['Lanczos numerics and convergence: bounded only', 'Arnoldi / GMRES / evolution classes: bounded only; known finding F-36 (GMRES breakdown)'],
      [])
 info('C17',
@@ -223,7 +237,8 @@ info('C17',
      'calls, field-by-field equality. '
      'B (bounded, not proof): real HDF5 round trip in every LegCharge format (blocks, compact, flat) and pickle round trip of instances '
      'of every Hdf5Exportable class found by reflection (uncovered classes are listed in coverage.bounded.bounds), of nested containers, '
-     'shared references and self-referential containers; recursive observational equality and test_sanity() of the loaded object.',
+     'shared references and self-referential containers; MPS with mixed tensor dtypes / norm != 1 / mixed forms, infinite and segment MPS; '
+     'recursive observational equality and test_sanity() of the loaded object.',
      ['the relational execution covers the small classes only; Site, MPS, MPO, lattices, models, term containers, Hdf5Saver/Loader dispatch '
       'pairs and pickle (__getstate__/__setstate__) are bounded only', 'h5py and pickle themselves'],
      [])
@@ -244,7 +259,8 @@ info('C11',
      'max(L + 2 r, L\' + 2 r\') sites with L substituted for an unknown range (contracts/c_mpo.py). '
      'B (bounded, not proof): finite MPOs from random term lists for every site family against dense operators: expectation value, '
      'variance, sum, dagger, is_hermitian, is_equal (false positives and negatives), overlap, distance, to_TermList/from_term_list, '
-     'plus_identity, apply by every compression method within the reported error, error order of make_U_I/II.',
+     'plus_identity, apply by every compression method within the reported error, error order of make_U_I/II for real- and '
+     'imaginary-time steps (and the Hamiltonian is unchanged by building them); infinite MPOs: is_equal / is_hermitian / overlap on windows.',
      ['MPO numerics: bounded only; infinite MPOs: is_equal / is_hermitian / overlap on windows with default and explicit max_range '
       'are bounded only; W tensors without identity markers: not covered'],
      [])
@@ -256,9 +272,10 @@ info('C13',
      'B (bounded, not proof): run() postconditions of two-site / single-site DMRG x mixers x diag_method x chi limits on chains of '
      '3-8 sites against exact diagonalisation in the charge sector of the initial state: normalised, canonical, same sector, reported '
      'E = <H> within truncation, E >= E_exact, untruncated two-site DMRG with mixer exact in energy and state; every relation of mixer_params.disable_after to the '
-     'number of sweeps (mixer switched off before / in / after the last sweep), finite and infinite: 1D Schmidt values, canonical; VUMPS engines on the '
+     'number of sweeps (mixer switched off before / in / after the last sweep), finite (also with a truncated bond dimension) and infinite: 1D Schmidt '
+     'values of norm one, canonical, <psi|psi> = 1; Lanczos options (E_shift), models with explicit_plus_hc; VUMPS engines on the '
      'infinite transverse-field Ising chain against the analytic energy per site.',
      ['convergence in general: this family cannot decide it', 'the deductive contribution to C13 is the sweep schedule and the environment bookkeeping of get_LP/get_RP; the effective '
       'Hamiltonians, mixers and the update of the state are bounded only',
-      'known findings F-43 (iDMRG ending with the mixer on) and F-51 (single-site DMRG + SubspaceExpansion + explicit_plus_hc)'],
+      'known finding F-51 (single-site DMRG + SubspaceExpansion + explicit_plus_hc)'],
      [])
